@@ -217,6 +217,19 @@ theorem C08_decode_total_tied (adjust decodeLen bytesLen : Nat) (dec : Nat → A
     C08T.loop_done adjust decodeLen bytesLen dec hor hadj hlen (decodeLen + 1) 0 (Nat.zero_le _) (by omega)
   exact ⟨items, f, h, hf⟩
 
+/-- **The fine-grained decode kernel is the tied loop.** `PK.decodeLoop` follows asm/mod.rs:357-431 at the
+level of the reader (`total_offset` as `u32`, `after - before`, the reader re-created at `offset` after an
+invalid instruction); for every decoder that stays inside its slice it computes exactly the size that
+`Asm.decode` — the loop C20 compares with the real listing — reports, and panics / fails to terminate exactly
+when that does. So `C08_kernels_total_decode` is a statement about a tied model, and the assumed
+`DecContract.invalid_avail` is only needed for slices within ADJUST of 4 GiB (compare `C08_decode_total_tied`). -/
+theorem C08_decode_kernel_is_tied (dec : List UInt8 → Dec) (adjust : Nat) (bytes : List UInt8) (decodeLen : Nat)
+    (hok : ∀ s n, dec s = .ok n → 1 ≤ n ∧ n ≤ s.length) (ha : 1 ≤ adjust) (hb : bytes.length ≤ u32Max) :
+    decodeLoop dec adjust bytes decodeLen 0 0 0 =
+      C08T.toPK (Asm.decode adjust decodeLen bytes.length (fun p => C08T.convDec (dec (bytes.drop p)))) :=
+  C08T.decodeLoop_eq_tied dec adjust bytes decodeLen hok ha hb 0 0 0 rfl (Nat.zero_le _) (decodeLen + 1)
+    (by omega)
+
 /-- **LineBuffer, tied.** For every list of chunks fed to a fresh `LineBuffer` (so, for every intermediate
 state of every feeding): the `assert!` / `current_offset - leftover.len()` of the next `consume` hold and
 `finish` does not underflow. (The `u64` offset additions are not an outcome of `LB`; `C08_kernels_total_linebuffer`
@@ -392,6 +405,20 @@ example : DecContract C08_toyDec 4 := by
     split at h
     · cases h
     · omega
+
+-- the toy decoder on 13 bytes (an invalid instruction at 4): the tied loop lists 0, 4 (invalid), 8 and reports 12
+example : Asm.decode 4 12 13 (fun p => C08T.convDec (C08_toyDec (([1, 2, 3, 4, 0, 0, 0, 0, 5, 6, 7, 8, 9] : List UInt8).drop p)))
+    = .done [⟨0, false⟩, ⟨4, true⟩, ⟨8, false⟩] 12 := by decide
+example : decodeLoop C08_toyDec 4 [1, 2, 3, 4, 0, 0, 0, 0, 5, 6, 7, 8, 9] 12 0 0 0 = .done 12 := by
+  rw [C08_decode_kernel_is_tied _ _ _ _ _ (by decide) (by decide)]
+  · decide
+  · intro s n h
+    unfold C08_toyDec at h
+    split at h
+    · cases h
+    · split at h
+      · cases h
+      · injection h with h; omega
 
 example : BsOk (bsearch1 0x1130 0x1140) 1 ∧ BsOk (.notFound 3) 3 := by decide
 example : asciiFollow [0x61, 0x2D, 0xC3, 0xA9, 0x2D, 0x31] = true
